@@ -232,18 +232,22 @@ def run(prog: Program, rep, thorough: bool) -> None:
             rep.saw(m)
         OPS = {'__eq__': ast.Eq, '__lt__': ast.Lt, '__gt__': ast.Gt, '__le__': ast.LtE, '__ge__': ast.GtE}
         problems = []
-        for other_kind in ('number', 'quantity'):
+        for dname_, other_kind in [(d_, k_) for d_ in sorted(dims) for k_ in ('number', 'quantity')]:
             st = State()
-            q = ev.new_inst(st, dims['Distance'], {MAG: S('a'), DISPLAY: SymObj('u1', C.unit_class(prog))})
+            q = ev.new_inst(st, dims[dname_], {MAG: S('a'), DISPLAY: SymObj('u1', C.unit_class(prog))})
             other = S('b') if other_kind == 'number' else ev.new_inst(
-                st, dims['Distance'], {MAG: S('b'), DISPLAY: SymObj('u2', C.unit_class(prog))})
+                st, dims[dname_], {MAG: S('b'), DISPLAY: SymObj('u2', C.unit_class(prog))})
+            other_kind = f'{other_kind} ({dname_})'
             try:
                 # through the operator, so that a method bound in the class body to a function object is followed too
                 r = ev.compare(OPS[name](), q, other, st, Ctx(umod, None, None, 0))
             except Undecided as exc:
                 raise AnalysisError(f'{name}: {exc}') from exc
             if not isinstance(r, Cond) or not isinstance(r.a, Const) or not isinstance(r.b, Const):
-                problems.append(f'vs {other_kind}: result {r!r}')
+                unit_dep = any(('u1' in (t_.key or '') or 'u2' in (t_.key or '') or (t_.rf is not None and {'u1', 'u2'} & t_.rf.symbols()))
+                               for p_, _x in cond_leaves(r) for t_, _pol in p_)
+                problems.append(f'vs {other_kind}: the outcome depends on the display unit of an operand, not only on the two magnitudes'
+                                if unit_dep else f'vs {other_kind}: result {r!r}'[:200])
                 continue
             t = r.test
             if name == '__eq__':
@@ -264,8 +268,8 @@ def run(prog: Program, rep, thorough: bool) -> None:
         if problems:
             rep.fail('C13.R2', umod.path, where_line, m.qualname if m is not None else f'{base.name}.{name}', name, '; '.join(problems))
         else:
-            rep.ok('C13.R2', f'{umod.path}:{where_line}', f'{name}: compares base-unit magnitudes only (vs number and vs quantity; the '
-                   f'two display units are distinct unknowns)')
+            rep.ok('C13.R2', f'{umod.path}:{where_line}', f'{name}: compares base-unit magnitudes only (every dimension, vs number and vs '
+                   f'quantity; the two display units are distinct unknowns)')
     ne_owners = [c.name for c in hierarchy if '__ne__' in c.methods]
     if ne_owners:
         rep.fail('C13.R2', umod.path, base.node.lineno, base.name, '__ne__',
